@@ -109,6 +109,8 @@ def worker(cfg):
     NN = shims["torch"].nn
     stats = core.Stats()
     out = {"violations": [], "samples": []}
+    if cfg.get("kind") == "lemma_rows":
+        return _lemma_rows(cfg, dls, NN, stats, out)
     A, L, B, ns, mode = cfg["A"], cfg["L"], cfg["B"], cfg["ns"], cfg["mode"]
 
     def body(ctx):
@@ -190,11 +192,111 @@ def worker(cfg):
     return out
 
 
+class FakeModule:
+    pass
+
+
+def _lemma_rows(cfg, dls, NN, stats, out):
+    """row independence of the real hook rules on ARBITRARY captured tensors (activation = uninterpreted function): the new
+    gradient of a pair (example row, reference row) computed inside a batch of Bp pairs equals the one computed for that pair
+    alone.  This is the link the end-to-end runs (integer-valued deltas) cannot exercise: tiny / huge real differences."""
+    Bp, n, rule = cfg["Bp"], cfg["n"], cfg["rule"]
+
+    def body(ctx):
+        shape = (n,) if rule == "nonlinear" else (1, n)
+        f = z3.Function("act_any", z3.RealSort(), z3.RealSort())
+        sym = lambda nm, rows: np.array([[core.Real("%s_%d_%d" % (nm, b, k)) for k in range(n)] for b in range(rows)], dtype=object).reshape((rows,) + shape)
+        ix, ir = sym("ix", Bp), sym("ir", Bp)
+        gin, g = sym("gin", 2 * Bp), sym("g", Bp)
+
+        def run(rows):
+            inp = T.Tensor(np.concatenate([ix[rows], ir[rows]]), dtype="float32")
+            mod = FakeModule() if rule == "nonlinear" else NN.MaxPool1d(cfg["K"], padding=cfg.get("padding", 0))
+            if rule == "nonlinear":
+                outp = T.Tensor(np.vectorize(lambda v: core.lift(f(v.z)), otypes=[object])(inp.a), dtype="float32")
+            else:
+                old = T.GRAD_ENABLED[0]
+                T.GRAD_ENABLED[0] = False
+                outp = mod(inp)
+                T.GRAD_ENABLED[0] = old
+            mod.input, mod.output = inp, outp
+            if rule == "nonlinear":
+                go = np.concatenate([g[rows], g[rows]])
+            else:
+                Lo = outp.shape[-1]
+                go = np.concatenate([g[rows][..., :Lo], g[rows][..., :Lo]])
+            gi = np.concatenate([gin[rows], gin[[Bp + r_ for r_ in rows]]])
+            fn = dls._nonlinear if rule == "nonlinear" else dls._maxpool
+            (new,) = fn(mod, (T.Tensor(gi, dtype="float32"),), (T.Tensor(go, dtype="float32"),))
+            return new
+        try:
+            full = run(list(range(Bp)))
+            claims = []
+            for b in range(Bp):
+                one = run([b])
+                for half in (0, 1):
+                    for c in np.ndindex(*shape):
+                        claims.append(full.a[(half * Bp + b,) + c] == one.a[(half,) + c])
+        except Exception as e:
+            if isinstance(e, core.Inconclusive):
+                raise
+            out["violations"].append(C.violation("rule:raises", "%s rule raised %s: %s" % (rule, type(e).__name__, e), dict(cfg, **LEMMA_REPLAY), replay_rows))
+            return "raised"
+        m, unk = dl.split_prove(ctx, claims, "hook rule is row-wise (pair by pair)")
+        if unk:
+            raise core.Inconclusive("%d obligations unknown" % unk)
+        if m is not None:
+            out["violations"].append(C.violation("rule:rows-interfere", "the %s rule's multipliers for one example-reference pair depend on the other pairs in the batch" % rule, dict(cfg, **LEMMA_REPLAY), replay_rows))
+        return "returned"
+    core.explore(body, stats=stats, max_paths=5000)
+    out["stats"] = stats.as_dict()
+    return out
+
+
+LEMMA_REPLAY = dict(A=2, L=3, B=2, ns=2, arch="dense1")
+
+
+def replay_rows(r):
+    """real torch: the hook rule on a batch whose pairs have tiny / huge differences, against each pair alone"""
+    C.real_tangermeme()
+    import torch
+    from tangermeme import deep_lift_shap as D
+    g = torch.Generator().manual_seed(3)
+    for trial in range(40):
+        Bp, n = r["Bp"], r["n"]
+        scale = torch.tensor([10.0 ** k for k in torch.randint(-6, 4, (Bp,), generator=g).tolist()], dtype=torch.float64)
+        shape = (Bp, n) if r["rule"] == "nonlinear" else (Bp, 1, n)
+        ir = torch.randn(shape, generator=g, dtype=torch.float64)
+        ix = ir + torch.randn(shape, generator=g, dtype=torch.float64) * scale.reshape((Bp,) + (1,) * (len(shape) - 1))
+        mod = torch.nn.ReLU() if r["rule"] == "nonlinear" else torch.nn.MaxPool1d(r["K"], padding=r.get("padding", 0))
+        fn = D._nonlinear if r["rule"] == "nonlinear" else D._maxpool
+
+        def run(rows):
+            inp = torch.cat([ix[rows], ir[rows]])
+            mod.input, mod.output = inp, mod(inp)
+            gi = torch.ones_like(inp)
+            return fn(mod, (gi,), (torch.cat([go_all[rows], go_all[rows]]),))[0]
+        inp_all = torch.cat([ix, ir])
+        go_all = torch.randn(mod(inp_all)[:Bp].shape, generator=g, dtype=torch.float64)
+        try:
+            full = run(list(range(Bp)))
+            for b in range(Bp):
+                one = run([b])
+                if not (torch.allclose(full[b], one[0], atol=1e-12, rtol=1e-9) and torch.allclose(full[Bp + b], one[1], atol=1e-12, rtol=1e-9)):
+                    return True, "%s rule: multipliers of pair %d differ between a batch of %d pairs and the pair alone (per-pair difference scales %s)" % (r["rule"], b, Bp, scale.tolist())
+        except Exception as e:
+            return True, "%s rule raised %s: %s" % (r["rule"], type(e).__name__, e)
+    return False, "ok"
+
+
 def configs(tier):
     q = tier == "quick"
     cf = [dict(mode="fn", A=2, L=2, B=2, ns=2), dict(mode="tensor", A=2, L=2, B=2, ns=2, raw=True), dict(mode="fn", A=2, L=2, B=2, ns=3, hypothetical=True),
           dict(mode="fn", A=2, L=2, B=3, ns=1), dict(mode="tensor", A=2, L=2, B=4, ns=1),
           dict(mode="tensor", A=2, L=2, B=2, ns=1, history_ops=True)]
+    cf += [dict(kind="lemma_rows", rule="nonlinear", Bp=2, n=2), dict(kind="lemma_rows", rule="maxpool", Bp=2, n=4, K=2)]
+    if not q:
+        cf += [dict(kind="lemma_rows", rule="nonlinear", Bp=3, n=2), dict(kind="lemma_rows", rule="maxpool", Bp=2, n=3, K=3, padding=1)]
     if not q:
         cf += [dict(mode="fn", A=2, L=3, B=3, ns=2), dict(mode="tensor", A=2, L=2, B=3, ns=3), dict(mode="fn", A=3, L=2, B=2, ns=3, raw=True, arch="conv")]
     return cf
@@ -203,10 +305,11 @@ def configs(tier):
 def main(tier, seed):
     rep = harness.Report(PROP, tier, seed)
     ld, _ = C.fresh_env()
-    rep.functions = [ld.func_info("deep_lift_shap", f) for f in ("deep_lift_shap", "hypothetical_attributions")]
+    rep.functions = [ld.func_info("deep_lift_shap", f) for f in ("deep_lift_shap", "hypothetical_attributions", "_nonlinear", "_maxpool")]
     cf = configs(tier)
     rep.bounds = {"batch_size": "symbolic Int in [1, n*n_shuffles + 1] - every value is a path (b < n_shuffles, b = k*n_shuffles, b coprime, b > n*n_shuffles)",
-                  "examples x shuffles": sorted({(c["B"], c["ns"]) for c in cf}), "outputs": "default / raw / hypothetical, return_references"}
+                  "examples x shuffles": sorted({(c["B"], c["ns"]) for c in cf if "B" in c}),
+                  "rule lemmas": "_nonlinear / _maxpool on arbitrary real tensors of 2..3 pairs x 2..4 elements: per-pair result equals the pair run alone", "outputs": "default / raw / hypothetical, return_references"}
     rep.assumptions = ["reference generator = uninterpreted function of (example, seed); real RNG streams are outside the claim", "random_state = None is not promised and not checked",
                        "model rows are independent (depth-1 networks from the C04/C05 grammar)"]
     rep.absorb(harness.run_configs("checks.C06", "worker", cf))
